@@ -720,4 +720,8 @@ def run(ctx):
     _fam.reader(ctx, "C06")
     _fam.mapping_list(ctx, "C06")
     _fam.thread_list(ctx, "C06")
+    # memory descriptors are final when pushed and the memory list is that list as it is (same rule instances as C07/memory-blocks-writers,
+    # C07/list-after-producers)
+    from rules import c07 as _c07m
+    _c07m.rule_memory_blocks_writers(ctx, R="C06/memory-blocks-writers")
 
